@@ -304,6 +304,12 @@ func TestVerifC09(t *testing.T) {
 						continue
 					}
 					where := []netip.AddrPort{nodes[rng.IntN(len(nodes))].Addr, ppx.Addr, ppy.Addr}[rng.IntN(3)]
+					if rng.IntN(3) == 0 {
+						// the answering host's certificate lists the dialled address first and one of the victim's own addresses
+						// after it: node a dials b and y-claims-b-and-a answers
+						victim, peer, where = nodes[0], nodes[1], ppy.Addr
+						r.Count("dials_answered_by_a_certificate_listing_the_dialled_address_then_the_victims_own", 1)
+					}
 					if where == victim.Addr {
 						continue
 					}
